@@ -6,6 +6,8 @@ exit 1  at least one unlisted violation: `VIOLATION property=<id> replay=<path>`
 exit 2  inconclusive (a deciding oracle / probe / input class was never reached,
         watchdog fired, harness error): `INCONCLUSIVE property=<id> reason=...`
 """
+import os
+os.environ.setdefault('OPENBLAS_NUM_THREADS', '1'); os.environ.setdefault('OMP_NUM_THREADS', '1'); os.environ.setdefault('MKL_NUM_THREADS', '1')   # same numerical environment for runs and replays
 import argparse
 import os
 import sys
